@@ -151,6 +151,9 @@ class Gen:
             lines.append('define shout with p begin print p return {p + 1} end')
             lines.append('define noisy begin println "in" printf "<{}>" 7 return 3 end')
             lines.append('define deep with p begin printf "{} {}|" p [shout p] return 0 end')
+            # printf statements that take no positional value of their own while an outer statement collects its values
+            lines.append('define banner begin printf "--" return 4 end')
+            lines.append('define tell with p begin printf "p={p};" return 5 end')
         for name in ('x', 'y', 'count', 'the_light', 'ratio', 'flag'):
             if rng.random() < 0.75:
                 v = self.simple_value(kinds=('int', 'int', 'float', 'str', 'bool'))
@@ -282,7 +285,14 @@ class Gen:
         if form == 'nested':
             if not nested_ok or 'shout' not in self.prelude_text():
                 return None
-            which = rng.choice(['shout', 'shout', 'noisy', 'deep'])
+            which = rng.choice(['shout', 'shout', 'noisy', 'deep', 'banner', 'tell'])
+            if which == 'banner':
+                pre = [{'k': 'printf', 'fmt': '--', 'args': [], 'names': []}]
+                return {'src': '[banner]', 'form': 'call-printing-routine', 'expect': 4, 'pre': pre}
+            if which == 'tell':
+                n = self.rand_int()
+                pre = [{'k': 'printf', 'fmt': 'p={p};', 'args': [], 'names': ['p']}]
+                return {'src': '[tell %d]' % n, 'form': 'call-printing-routine', 'expect': 5, 'pre': pre}
             if which == 'shout':
                 n = self.rand_int()
                 pre = [{'k': 'print', 'v': {'src': 'p', 'expect': n, 'pre': []}}]
